@@ -581,7 +581,7 @@ func runC14(c *core.Ctx) {
 		c.Broken("C14.threshold", fn, "non-vbft VerifyMultiSignature call", c.P.Rel(fn.Pos()), sprintf("%d candidates", len(otherMs)))
 	}
 
-	checkVerifyMultiSignature(c)
+	checkVerifyMultiSignature(c, "C14.multisig-internals")
 }
 
 func isGenesisReturn(fn *ssa.Function, ret *ssa.Return) bool {
@@ -619,7 +619,7 @@ func sliceOfCall(v ssa.Value, o *types.Func) bool {
 	return n == 1 && okc
 }
 
-func checkVerifyMultiSignature(c *core.Ctx) {
+func checkVerifyMultiSignature(c *core.Ctx, rule string) {
 	fn := c.Fn(pkSig, "VerifyMultiSignature")
 	if fn == nil {
 		return
@@ -628,7 +628,7 @@ func checkVerifyMultiSignature(c *core.Ctx) {
 	isParam := func(name string) func(ssa.Value) bool {
 		return func(v ssa.Value) bool { p, ok := ir.Strip(v).(*ssa.Parameter); return ok && p.Name() == name }
 	}
-	eng.Dominates(c, "C14.multisig-internals", fn, cmpGuard("len(sigs) >= m", func(b *ssa.BinOp) (bool, bool) {
+	eng.Dominates(c, rule, fn, cmpGuard("len(sigs) >= m", func(b *ssa.BinOp) (bool, bool) {
 		if b.Op == token.LSS && eng.IsLenOf(isParam("sigs"))(b.X) && isParam("m")(b.Y) {
 			return true, false
 		}
@@ -662,50 +662,58 @@ func checkVerifyMultiSignature(c *core.Ctx) {
 	if len(maskStores) == 0 {
 		return
 	}
-	st := maskStores[0].(*ssa.Store)
-	jIdx := st.Addr.(*ssa.IndexAddr).Index
-	notMasked := eng.NamedGuard{Name: "!mask[j]", G: func(cd ir.Cond) (bool, bool) {
-		u, ok := cd.V.(*ssa.UnOp)
-		if !ok || u.Op != token.MUL {
-			return false, false
-		}
-		ia, ok := u.X.(*ssa.IndexAddr)
-		if !ok || ia.X != maskAlloc || ia.Index != jIdx {
-			return false, false
-		}
-		return true, false
-	}}
-	eng.Dominates(c, "C14.multisig-internals", fn, notMasked, instrSinks(maskStores, "mask[j]=true"), "mask[j] = true", nil)
-	verified := eng.NamedGuard{Name: "s.Verify(keys[j], data, sig)", G: func(cd ir.Cond) (bool, bool) {
-		cl, _ := ir.CallOf(cd.V)
-		if cl == nil {
-			return false, false
-		}
-		o := ir.CalleeObj(cl)
-		if o == nil || o.Name() != "Verify" || o.Pkg() == nil || o.Pkg().Path() != "github.com/ontio/ontology-crypto/signature" {
-			return false, false
-		}
-		// key argument is keys[j]
-		a := cl.Common().Args
-		u, ok := ir.Strip(a[0]).(*ssa.UnOp)
-		if !ok {
-			return false, false
-		}
-		ia, ok := u.X.(*ssa.IndexAddr)
-		if !ok || !isParam("keys")(ia.X) || ia.Index != jIdx || !isParam("data")(a[1]) {
-			return false, false
-		}
-		return true, true
-	}}
-	eng.Dominates(c, "C14.multisig-internals", fn, verified, instrSinks(maskStores, "mask[j]=true"), "mask[j] = true", nil)
+	for _, msi := range maskStores {
+		st := msi.(*ssa.Store)
+		jIdx := st.Addr.(*ssa.IndexAddr).Index
+		one := instrSinks([]ssa.Instruction{msi}, "mask[j]=true")
+		notMasked := eng.NamedGuard{Name: "!mask[j]", G: func(cd ir.Cond) (bool, bool) {
+			u, ok := cd.V.(*ssa.UnOp)
+			if !ok || u.Op != token.MUL {
+				return false, false
+			}
+			ia, ok := u.X.(*ssa.IndexAddr)
+			if !ok || ia.X != maskAlloc || ia.Index != jIdx {
+				return false, false
+			}
+			return true, false
+		}}
+		eng.Dominates(c, rule, fn, notMasked, one, "mask[j] = true", nil)
+		verified := eng.NamedGuard{Name: "s.Verify(keys[j], data, sig)", G: func(cd ir.Cond) (bool, bool) {
+			cl, _ := ir.CallOf(cd.V)
+			if cl == nil {
+				return false, false
+			}
+			o := ir.CalleeObj(cl)
+			if o == nil || o.Name() != "Verify" || o.Pkg() == nil || o.Pkg().Path() != "github.com/ontio/ontology-crypto/signature" {
+				return false, false
+			}
+			// key argument is keys[j]
+			a := cl.Common().Args
+			u, ok := ir.Strip(a[0]).(*ssa.UnOp)
+			if !ok {
+				return false, false
+			}
+			ia, ok := u.X.(*ssa.IndexAddr)
+			if !ok || !isParam("keys")(ia.X) || ia.Index != jIdx || !isParam("data")(a[1]) {
+				return false, false
+			}
+			return true, true
+		}}
+		eng.Dominates(c, rule, fn, verified, one, "mask[j] = true", nil)
+	}
 	// per-signature: the outer loop iteration must set a mask slot (valid flag): every outer iteration executes a mask store
 	outer := eng.FindSliceLoopsByBound(fn, isParam("m"))
 	if len(outer) != 1 {
-		c.Broken("C14.multisig-internals", fn, "outer loop i < m", c.P.Rel(fn.Pos()), sprintf("%d", len(outer)))
+		c.Broken(rule, fn, "outer loop i < m", c.P.Rel(fn.Pos()), sprintf("%d", len(outer)))
 		return
 	}
-	eng.IterationMustExec(c, "C14.multisig-internals", fn, outer[0].Header, outer[0].Body, "for i < m", "a mask[j]=true store (one distinct key per signature)", func(in ssa.Instruction) bool {
-		return in == maskStores[0]
+	eng.IterationMustExec(c, rule, fn, outer[0].Header, outer[0].Body, "for i < m", "a mask[j]=true store (one distinct key per signature)", func(in ssa.Instruction) bool {
+		for _, ms := range maskStores {
+			if in == ms {
+				return true
+			}
+		}
+		return false
 	})
 	// and nil return only after the outer loop exits normally
 	ex := ir.Edge{From: outer[0].Header, Idx: 1 - indexOfSucc(outer[0].Header, outer[0].Body)}
@@ -716,5 +724,5 @@ func checkVerifyMultiSignature(c *core.Ctx) {
 			okx = false
 		}
 	}
-	c.Decide(okx, "C14.multisig-internals", fn, "nil return only after all m signatures were matched", c.P.Rel(fn.Pos()), "")
+	c.Decide(okx, rule, fn, "nil return only after all m signatures were matched", c.P.Rel(fn.Pos()), "")
 }
